@@ -360,7 +360,7 @@ MODEL_OPS = {("div", "sparse"), ("ne", "sparse"), ("eq", "dense"), ("ne", "dense
 # S * K as the code is (every stored row kept: open finding C03-K2).  When fixes/C03-7-K1-K2.diff is applied to /repo: flip C03-K1 and
 # C03-K2 to fixed, delete their triggers / witnesses and set this to True (the filtered transliteration impl_mul_k_filtered, theorem
 # C03_mul_kruskal_filtered, becomes the one accepted behaviour of the list-for-list tie `mulmodel`)
-KRUSKAL_FILTERED = False
+KRUSKAL_FILTERED = True
 IDENT_MODES = ("cancel_all", "cancel_some", "equal", "mixed")
 LAYOUTS = ("F", "C", "view")
 # first steps whose result is sparse, by kind of right-hand side
@@ -647,8 +647,6 @@ def _order0_dense(c):
 
 TRIGGERS = {
     "order0_dense_operand": _order0_dense,
-    "kruskal_sparse_operand_empty": _kruskal_sparse_empty,
-    "mul_kruskal_zero_at_stored": _mul_kruskal_zero_at_stored,
     "div_kruskal_clamped": _div_kruskal_clamped,
     # only the OPEN findings keep a trigger (C03-N7 sparse/sparse division with differing supports, C03-N5 sparse/dense
     # division at common zeros); A-07 is repaired (e2beb21): its witness is a regression case (REGRESSION)
@@ -671,13 +669,14 @@ WITNESS_INPUTS = {
     "C03-N7": ("div", dict(W22, subs=[[1, 0]], vals=[4], rk="sparse", bsubs=[[1, 1]], bvals=[3])),
     "C03-N5": ("div", dict(W22, subs=[[1, 1], [0, 0]], vals=[3, 2], rk="dense", bd=[1, 0, 2, 3])),
     "C03-Z0": ("eq", dict(shape=[], subs=[], vals=[], rk="dense", bd=[])),
-    "C03-K1": ("mul", dict(W22, subs=[], vals=[], rk="kruskal", **WK)),
-    "C03-K2": ("mul", dict(W22, subs=[[1, 1], [0, 0], [0, 1]], vals=[3, 2, 5], rk="kruskal", **WK)),
     "C03-K3": ("div", dict(W22, subs=[[1, 1], [0, 0], [0, 1]], vals=[3, 2, 5], rk="kruskal", kw=[1], kf=[[[1], [-2]], [[1], [3]]])),
 }
 WITNESSES = {k: _witness(*v) for k, v in WITNESS_INPUTS.items()}
 # witnesses of repaired findings (A-07 same support / opposite stored orders; the same on a 1-way tensor; C03-DT2 empty / empty)
 REGRESSION = [
+    # witnesses of C03-K1 / C03-K2 (repaired in /repo by fixes/C03-7-K1-K2.diff): ordinary regression cases now
+    ("mul", dict(W22, subs=[], vals=[], rk="kruskal", **WK)),
+    ("mul", dict(W22, subs=[[1, 1], [0, 0], [0, 1]], vals=[3, 2, 5], rk="kruskal", **WK)),
     ("div", dict(W22, subs=[[1, 1], [0, 0]], vals=[3, 2], rk="sparse", bsubs=[[0, 0], [1, 1]], bvals=[5, 7])),
     ("div", dict(shape=[3], subs=[[2], [0], [1]], vals=[3, 2, -1], rk="sparse", bsubs=[[0], [1], [2]], bvals=[5, 7, 2])),
     ("div", dict(shape=[3], subs=[], vals=[], rk="sparse", bsubs=[], bvals=[])),
